@@ -664,6 +664,11 @@ pub(crate) async fn exec_model_trace_world(t: Trace, prop: &'static str, w: Worl
         }
     }
     out.tails = w.conns.iter().map(|c| c.all_lines.iter().rev().take(14).rev().cloned().collect()).collect();
+    for (k, v) in w.net_counters() {
+        if k != "net.reads" && k != "net.writes" {
+            out.count(k, v);
+        }
+    }
     out.violation = viol;
     out.status = status;
     out.digest = w.digest;
